@@ -3446,7 +3446,33 @@ impl ContinuityStore {
     }
 
     fn load_next_seq_for(&self, continuity_id: &str) -> Result<u64, io::Error> {
-        if let Ok(Some(last_seq)) = self.stream_cache.try_read_last_seq(continuity_id) {
+        let cached_last_seq = self
+            .stream_cache
+            .try_read_last_seq(continuity_id)
+            .ok()
+            .flatten();
+
+        // The truth log decides the next seq. The sidecar can be behind it: a crash between the
+        // truth append and the sidecar append, a rebuild still being written by another caller,
+        // or a cache file that was rolled back or truncated at a line boundary.
+        if let Ok(Some(truth_last_seq)) = self
+            .event_log
+            .last_seq_of_stream(StreamKind::Continuity, continuity_id)
+        {
+            if cached_last_seq.is_some() && cached_last_seq != Some(truth_last_seq) {
+                // Bring the caches back in line so reads stop answering from a stale sidecar.
+                if let Ok(events) = self
+                    .event_log
+                    .replay_stream(StreamKind::Continuity, continuity_id)
+                {
+                    self.stream_cache
+                        .rebuild_best_effort(continuity_id, &events);
+                }
+            }
+            return Ok(truth_last_seq.saturating_add(1));
+        }
+
+        if let Some(last_seq) = cached_last_seq {
             return Ok(last_seq.saturating_add(1));
         }
 
